@@ -435,18 +435,22 @@ def r11_links_survive(idx, r):
             if not bare:
                 continue
             n += 1
-            if len(strips) != len(bare):
-                r.violate(f"{f.qualname}:stripped-links-kept", f, "the stripped links are discarded (result of _getLinkedDimsAndValues not kept)", node=bare[0])
+            # the links handed back are those just lifted out, or (restoreBackup) the ones a matching backUp saved on the component
+            saved_pop = [norm(x.targets[0].elts[0]) for x in walk_local(f.node) if isinstance(x, ast.Assign) and isinstance(x.targets[0], ast.Tuple) and len(x.targets[0].elts) == 2
+                         and norm(x.value).startswith("self._") and norm(x.targets[0].elts[1]) == norm(x.value)]
+            if len(strips) != len(bare) and not saved_pop:
+                r.violate(f"{f.qualname}:stripped-links-kept", f, "the stripped links are discarded (result of _getLinkedDimsAndValues not kept) and no saved links are re-installed", node=bare[0])
                 continue
-            var = strips[0].attr
+            var = strips[0].attr if strips else saved_pop[0]
+            ok_args = {var} | set(saved_pop)
 
-            def ev(nd, var=var):
-                if isinstance(nd, ast.Call) and dotted(nd.func) == "self._restoreLinkedDims" and nd.args and norm(nd.args[0]) == var:
+            def ev(nd, ok_args=ok_args):
+                if isinstance(nd, ast.Call) and dotted(nd.func) == "self._restoreLinkedDims" and nd.args and norm(nd.args[0]) in ok_args:
                     return ["restored"]
                 return []
             fl = Flow(f.node, ev).run()
             bad = [e for e in fl.normal_exits() if e.state.get("restored", (0, 0))[0] < 1]
-            r.require(not bad, f"{f.qualname}:links-restored-on-self", f, node=(bad[0].node if bad and bad[0].node is not None else strips[0].stmt),
+            r.require(not bad, f"{f.qualname}:links-restored-on-self", f, node=(bad[0].node if bad and bad[0].node is not None else (strips[0].stmt if strips else bare[0])),
                       msg=f"{f.qualname} strips this component's dimension links and can return without self._restoreLinkedDims({var}): the linked dimension falls back to "
                           "its default and stops following the component it is linked to")
     if n < 3:
